@@ -31,6 +31,9 @@ SingleCases ==
 (* lists of 0..3 SCTs *)
 ListIdx == << <<>>, <<1>>, <<NS>>, <<2, 3>>, <<5, 5>>, <<7, 40, 90>>, <<108, 1, 55>>, <<NS, 2>> >>
           \o [j \in 1..36 |-> <<3 * j>>] \o [j \in 1..20 |-> <<5 * j, 5 * j + 1>>]
+          \o (IF Thorough THEN [j \in 1..(NS - 3) |-> <<j, j + 1, j + 2, j + 3>>] \o [j \in 1..(NS - 1) |-> <<j + 1, j>>]
+                               \o [j \in 1..50 |-> [h \in 1..((j % 7) + 2) |-> ((j * h * 13) % NS) + 1]]
+               ELSE <<>>)
 ListCases ==
   Concat([q \in 1..Len(ListIdx) |->
     [s \in 1..2 |-> Mk("list", ListFn, EncSctList([h \in 1..Len(ListIdx[q]) |-> Scts[ListIdx[q][h]]]) \o Sfx[s],
@@ -70,7 +73,7 @@ ManyCases == [q \in 1..4 |->
   LET n == <<49, 50, 60, 1300>>[q]  l == [k \in 1..n |-> MinSct(k)] IN
   [kind |-> "many", fn |-> ListFn, bytes |-> EncSctList(l), want |-> <<n>>, extra |-> 0]]
 (* signature length swept through the bands where a length could be mistaken for an algorithm pair *)
-SigLens == (0..40) \cup (250..262) \cup (506..520) \cup (1018..1032)
+SigLens == IF Thorough THEN 0..1100 ELSE (0..40) \cup (250..262) \cup (506..520) \cup (1018..1032)
 SigPairs == <<<<4, 3>>, <<4, 1>>, <<2, 2>>, <<0, 2>>, <<1, 0>>>>
 SigSweep == LET ls == SetToSeq(SigLens) IN
   Concat([p \in 1..Len(SigPairs) |->
